@@ -193,43 +193,37 @@ Fixpoint name_components (fuel : nat) (p : bytes) : res (list bytes) :=
       end
   end.
 
-(* the value search after a map key: skip unrecognised non-critical elements *)
-Fixpoint find_map_value (vt : N) (ic : bool) (els : list elem) : res (elem * list elem) :=
-  match els with
-  | [] => Err EIndex
-  | e :: r =>
-      if e_type e =? vt then Ok (e, r)
-      else if N.odd (e_type e) && negb ic then Err EDecode
-      else find_map_value vt ic r
-  end.
+(* state of the scan loop: after a map key the loop looks for that key's value element, skipping
+   unrecognised non-critical elements *)
+Inductive pstate := PNormal | PAwait (i : nat) (key : value) (vt : N) (vk : fkind).
 
 Fixpoint assign_with (pv : fkind -> elem -> res value) (fs : list field) (ic : bool)
-         (fuel : nat) (pos : nat) (els : list elem) (acc : list value) {struct fuel} : res (list value) :=
+         (st : pstate) (pos : nat) (els : list elem) (acc : list value) {struct els} : res (list value) :=
   match els with
-  | [] => Ok acc
+  | [] => match st with PNormal => Ok acc | PAwait _ _ _ _ => Err EIndex end
   | e :: r =>
-      match fuel with
-      | O => Err EFuel
-      | S fuel' =>
+      match st with
+      | PAwait i key vt vk =>
+          if e_type e =? vt then
+            do x <- pv vk e ;;
+            assign_with pv fs ic PNormal i r
+              (upd acc i (fun old => match old with VMap l => VMap (map_store l key x) | _ => VMap [(key, x)] end))
+          else if N.odd (e_type e) && negb ic then Err EDecode
+          else assign_with pv fs ic st pos r acc
+      | PNormal =>
           match find_from fs 0 pos (e_type e) with
           | Some (i, k) =>
               match k with
               | KRepeated ek =>
                   do x <- pv ek e ;;
-                  assign_with pv fs ic fuel' i r
+                  assign_with pv fs ic PNormal i r
                     (upd acc i (fun old => match old with VList l => VList (l ++ [x]) | _ => VList [x] end))
-              | KMap kk vt vk =>
-                  do key <- pv kk e ;;
-                  do fr <- find_map_value vt ic r ;;
-                  let '(ve, r') := fr in
-                  do x <- pv vk ve ;;
-                  assign_with pv fs ic fuel' i r'
-                    (upd acc i (fun old => match old with VMap l => VMap (map_store l key x) | _ => VMap [(key, x)] end))
-              | _ => do x <- pv k e ;; assign_with pv fs ic fuel' (S i) r (upd acc i (fun _ => x))
+              | KMap kk vt vk => do key <- pv kk e ;; assign_with pv fs ic (PAwait i key vt vk) i r acc
+              | _ => do x <- pv k e ;; assign_with pv fs ic PNormal (S i) r (upd acc i (fun _ => x))
               end
           | None =>
               if N.odd (e_type e) && negb ic then Err EDecode
-              else assign_with pv fs ic fuel' pos r acc
+              else assign_with pv fs ic PNormal pos r acc
           end
       end
   end.
@@ -256,7 +250,7 @@ Fixpoint parse_val (d : nat) (k : fkind) (e : elem) : res value :=
           else do n <- name_components (S (length p)) p ;; Ok (VName n)
       | KModel fs ic =>
           do els <- split_wire p ;;
-          do vs <- assign_with (parse_val d') fs ic (S (length els)) 0 els (blank fs) ;;
+          do vs <- assign_with (parse_val d') fs ic PNormal 0 els (blank fs) ;;
           Ok (VModel vs)
       | KRepeated _ | KMap _ _ _ => Err EType
       end
@@ -265,7 +259,7 @@ Fixpoint parse_val (d : nat) (k : fkind) (e : elem) : res value :=
 (* TlvModel.parse(wire, ignore_critical) *)
 Definition parse_model (d : nat) (fs : list field) (ic : bool) (w : bytes) : res (list value) :=
   do els <- split_wire w ;;
-  assign_with (parse_val d) fs ic (S (length els)) 0 els (blank fs).
+  assign_with (parse_val d) fs ic PNormal 0 els (blank fs).
 
 (* nesting depth of a descriptor (fuel for the functions above) *)
 Fixpoint kdepth (k : fkind) : nat :=
